@@ -23,6 +23,14 @@ func ConditionNameDoesntMatchError(conditionName string, conditionNestedName str
 	)
 }
 
+func ConditionParameterUnsupportedTypeError(parameterName string, parameterType string) error {
+	return fmt.Errorf( //nolint:goerr113
+		"the '%s' condition parameter has the type '%s', which the OpenFGA DSL syntax cannot express",
+		parameterName,
+		parameterType,
+	)
+}
+
 func ConditionParameterMissingGenericTypeError(parameterName string, parameterType string) error {
 	return fmt.Errorf( //nolint:goerr113
 		"the '%s' condition parameter is a %s without an element type",
